@@ -38,9 +38,15 @@ _INV = {"n": 0}
 _Monitored = None
 
 
+def _length_of(self):
+    # public accessor through the base class (bypasses the contract wrappers; private field names are not relied upon)
+    from operon_ai.state.telomere import Telomere
+    return Telomere.get_statistics(self)["telomere_length"]
+
+
 def _length_in_range(self):
     _INV["n"] += 1
-    return 0 <= self._telomere_length <= self.max_operations
+    return 0 <= _length_of(self) <= self.max_operations
 
 
 def monitored_class():
@@ -52,7 +58,7 @@ def monitored_class():
         class MonitoredTelomere(Telomere):
             pass
         _Monitored = icontract.invariant(_length_in_range, error=lambda self: InvariantBroken(
-            "length %r outside [0,%r]" % (self._telomere_length, self.max_operations)))(MonitoredTelomere)
+            "length %r outside [0,%r]" % (_length_of(self), self.max_operations)))(MonitoredTelomere)
     return _Monitored
 
 
